@@ -12,7 +12,7 @@
 (* Mod360 Within.  Multiplication truncates toward zero at 1e-16.          *)
 (* The module is self-tested against Python Fractions (FixSelfTest.tla).   *)
 (***************************************************************************)
-EXTENDS Integers, Sequences
+EXTENDS Integers, Sequences, TLC
 
 B  == 10000
 NF == 4
@@ -96,9 +96,11 @@ Mul(a, b) ==
            cs == Carry(k0, 0)                   \* cs[j] is limb k0 + j - 1 of the full product
            Full(k) == IF k < k0 \/ k > k1 + 2 THEN 0 ELSE cs[k - k0 + 1]
            d == [i \in Limbs |-> Full(i + NF)]
-       IN \* overflow beyond W limbs is a machinery error, made visible (s = 0 is not a Fix)
+       IN \* overflow beyond W limbs must never pass silently: TLC stops with this message, which the
+          \* harness reports as clause FIX_OVERFLOW at the trace line reached (a value outside 1e36 is not
+          \* something any property here allows)
           IF \E k \in (W + NF + 1)..(k1 + 2) : Full(k) # 0
-          THEN [s |-> 0, d |-> ZeroMag]
+          THEN Assert(FALSE, "FIX_OVERFLOW in Fix!Mul")
           ELSE Norm(a.s * b.s, d)
 Sq(a) == Mul(a, a)
 
